@@ -901,3 +901,60 @@ func ruleIMPLANDOPERAND(c *Ctx, r *Report) {
 	}
 	r.floor(rule, "term-shift paths without injection", n, 1)
 }
+
+// PARSE-STATE (C09, C05, C06): what the parser remembers of the input it has seen is on its two stacks.
+func rulePARSESTATE(c *Ctx, r *Report) {
+	const rule = "PARSE-STATE"
+	r.doc(rule, "no field of the parser other than the two stacks accumulates over the parse: in the functions reachable from the parse loop, no store to another parser field computes the new value from the field's old value (a counter, a depth, a growing list). Decisions that depend on such a field depend on how many shifts and reductions happened — redundant parentheses, which cost a reduction and leave the stacks as they were, would then change the outcome")
+	pr := c.parserPreamble(r, rule)
+	if pr == nil {
+		return
+	}
+	st, ok := pr.Type.Underlying().(*types.Struct)
+	if !ok {
+		r.bad(rule, "anchor", "-", "parser type is not a struct")
+		return
+	}
+	reach := c.reachFrom([]*ssa.Function{pr.ParseLoop})
+	n := 0
+	for i := 0; i < st.NumFields(); i++ {
+		f := st.Field(i)
+		if f == pr.StackF || f == pr.NTF {
+			continue
+		}
+		for _, fs := range c.storesToFields(f) {
+			if !reach[fs.fn] || fs.fn == pr.Parse {
+				continue
+			}
+			n++
+			key := fmt.Sprintf("%s|%s", fnName(fs.fn), f.Name())
+			if c.dependsOnField(fs.st.Val, f, 0, map[ssa.Value]bool{}) {
+				r.bad(rule, key, c.instrPos(fs.st), fmt.Sprintf("%s updates parser.%s from its own previous value: the parser accumulates state outside its stacks (a count of reductions, a depth, …), so whatever is decided from it depends on how the query was spelled, not only on what it means — `(a) AND (b)` costs more reductions than `a AND b`", fnName(fs.fn), f.Name()))
+			} else {
+				r.ok(rule, key, c.instrPos(fs.st), "overwritten with a value that does not depend on its previous one")
+			}
+		}
+	}
+	r.ok(rule, "fields-examined", "-", fmt.Sprintf("%d parser fields, %d stores to fields other than the stacks in the parse loop's reach", st.NumFields(), n))
+}
+
+// dependsOnField: the value is computed (within its function) from a load of the given struct field.
+func (c *Ctx) dependsOnField(v ssa.Value, f *types.Var, depth int, seen map[ssa.Value]bool) bool {
+	if v == nil || depth > 12 || seen[v] {
+		return false
+	}
+	seen[v] = true
+	if ld, ok := v.(*ssa.UnOp); ok && ld.Op == token.MUL {
+		if fa, ok := ld.X.(*ssa.FieldAddr); ok && fieldVar(fa.X.Type(), fa.Field) == f {
+			return true
+		}
+	}
+	if in, ok := v.(ssa.Instruction); ok {
+		for _, op := range in.Operands(nil) {
+			if *op != nil && c.dependsOnField(*op, f, depth+1, seen) {
+				return true
+			}
+		}
+	}
+	return false
+}
